@@ -241,6 +241,19 @@ EdgeScale(d) ==
      /\ Emit(Tf(MeanCase("paired", ty, "ci", ki, 12, pa, TRUE) @@ [datab |-> pb], "base", <<>>))
      /\ Emit(Tf(MeanCase("paired", ty, "ci", ki, 12, sc(pa), FALSE) @@ [datab |-> sc(pb)], "scale", [k |-> k]))
 
+\* ... and down into the last binades in which every square, the variance and the standard deviation are still NORMAL numbers
+\* (4096 observations with mean exactly 0, so that a bound is c * s / sqrt(n) and nothing else): no operation of the documented
+\* formula underflows there, so scaling stays exact; a quantity n times smaller than the variance would not be normal any more
+EdgeScaleDown(d) ==
+  \A ty \in {"f64", "f32"} : \A ki \in 1..3 :
+     LET da == [rle |-> << <<V(-900, 0), 1024>>, <<V(900, 0), 1024>>, <<V(-331, 0), 1024>>, <<V(331, 0), 1024>> >>, order |-> "interleave"]
+         k  == IF ty = "f64" THEN -518 ELSE -70
+         sc(x) == x @@ [scale |-> [p |-> k]] IN
+     /\ Emit(Tf(MeanCase("arith", ty, "ci", ki, 12, da, TRUE), "base", <<>>))
+     /\ Emit(Tf(MeanCase("arith", ty, "ci", ki, 12, sc(da), FALSE), "scale", [k |-> k]))
+     /\ Emit(Tf(MeanCase("paired", ty, "ci", ki, 12, da, TRUE) @@ [datab |-> da @@ [order |-> "desc"]], "base", <<>>))
+     /\ Emit(Tf(MeanCase("paired", ty, "ci", ki, 12, sc(da), FALSE) @@ [datab |-> sc(da @@ [order |-> "desc"])], "scale", [k |-> k]))
+
 PermsOf(n) == Permutations(1..n)
 C16Part(d) ==
   /\ \A i \in 1..ND : \A ty \in {"f64", "f32"} : \A li \in LevSel : \A ki \in 1..3 :
@@ -275,7 +288,7 @@ C16Part(d) ==
 
 Next == /\ ~done
         /\ done' = TRUE
-        /\ CASE Part = "c10" -> C10Part(done) [] Part = "c16" -> (C16Part(done) /\ MixNeg(done) /\ ZeroMean(done) /\ EdgeScale(done)) [] Part = "c10seq" -> C10SeqPart(done)
+        /\ CASE Part = "c10" -> C10Part(done) [] Part = "c16" -> (C16Part(done) /\ MixNeg(done) /\ ZeroMean(done) /\ EdgeScale(done) /\ EdgeScaleDown(done)) [] Part = "c10seq" -> C10SeqPart(done)
              [] Part = "c10extra" -> C10ExtraPart(done) [] Part = "hist" -> HistPart(done)
 Spec == Init /\ [][Next]_done
 =============================================================================
